@@ -159,7 +159,7 @@ class Explorer:
         """run requests; classify; returns answers"""
         if not reqs:
             return []
-        ans = vh_batch(reqs, shards=vlib.NCPU if len(reqs) >= 32 else 1, timeout=timeout)
+        ans = vh_batch(reqs, shards=vlib.NCPU if len(reqs) >= 32 else 1, timeout=timeout, idle=20)
         for r, a in zip(reqs, ans):
             self.n_req += 1
             op = r["op"]
